@@ -217,6 +217,20 @@ class Model:
         self.kn_target = {}             # leaf -> (name, j)
         self.order = []                 # registration order of task ids (for dump order)
         self.frozen = False
+        self.wrap = {}                  # label -> key: the tree of that root lives in root[key] (World.wrap)
+
+    def pfx(self, path):
+        """Declared-dependency locations of an access path (see prefixes); below a rebound label
+        every path additionally passes through the holder container."""
+        if path[0] in self.wrap:
+            return [(path[0], ("w", self.wrap[path[0]]))] + prefixes(path)
+        return prefixes(path)
+
+    def decl_deps(self, ast):
+        out = set()
+        for p in ast_paths(ast):
+            out.update(self.pfx(p))
+        return out
 
     # ---- copying -------------------------------------------------------
     def clone(self):
@@ -230,6 +244,7 @@ class Model:
         m.kn_target = dict(self.kn_target)
         m.order = list(self.order)
         m.frozen = self.frozen
+        m.wrap = self.wrap
         return m
 
     def adopt(self, other):
@@ -301,14 +316,14 @@ class Model:
         taskid = ('e', path) | ('f', name) | ('k', name)"""
         out = {}
         for loc, ast in self.defs.items():
-            out[("e", loc)] = (decl_deps(ast), set(prefixes(loc)))
+            out[("e", loc)] = (self.decl_deps(ast), set(self.pfx(loc)))
         for name, ft in self.ftasks.items():
             d = set()
             for p in ft["deps"]:
-                d.update(prefixes(p))
+                d.update(self.pfx(p))
             t = set()
             for p in ft["targets"]:
-                t.update(prefixes(p))
+                t.update(self.pfx(p))
             out[("f", name)] = (d, t)
         for name, kn in self.knobs.items():
             out[("k", name)] = ({kn["source"]}, set(kn["targets"]))
@@ -565,7 +580,7 @@ def _apply(m, op):
             del m.defs[path]
             m.order.remove(("e", path))
         m.val[path] = value
-        return prefixes(path)
+        return m.pfx(path)
     if kind == "sete":
         _, path, ast = op[:3]
         _free_leaf(m, path)
@@ -574,7 +589,7 @@ def _apply(m, op):
             m.order.remove(("e", path))
         m.defs[path] = ast
         m.order.append(("e", path))
-        return prefixes(path)
+        return m.pfx(path)
     if kind == "inpl":
         _, path, o, operand = op[:4]
         _free_leaf(m, path)
@@ -608,7 +623,7 @@ def _apply(m, op):
             raise ModelReject("container holds a derived member (excluded by the property)")
         for c, v in zip(ch, values):
             m.val[c] = v
-        return prefixes(path)
+        return m.pfx(path)
     if kind == "regf":
         _, name, deps, targets, coefs = op[:5]
         if name in m.ftasks or name in m.knobs:
@@ -629,7 +644,7 @@ def _apply(m, op):
         m.order.append(("f", name))
         start = set()
         for d in deps:
-            start.update(prefixes(d))
+            start.update(m.pfx(d))
         return sorted(start, key=repr)
     if kind == "unregf":
         name = op[1]
